@@ -4,6 +4,7 @@
    run.  [fields_ok tab sch vs] = "every field value its format version allows": each value survives its
    own codec (field_rt, proved per codec below) and its text fits the character class of the pattern. *)
 From PV Require Import Lib.Base Lib.Round Model.C07 Model.C07_Disp Model.C07_Up Gen.C07_Schemas Gen.C07_Parsers Proofs.C07_lib Proofs.C07 Proofs.C07_codec Proofs.C07_hist Proofs.C07_disp Proofs.C07_disp2 Proofs.C07_up.
+From PV Require Import Model.C07_Hist Proofs.C07_phist.
 From Coq Require Import QArith Qabs Ascii.
 #[local] Open Scope string_scope.
 #[local] Open Scope Z_scope.
@@ -500,3 +501,61 @@ Theorem to_v1_tempo_words : forall ws,
   Some (L1ScoreProp "tempoIndication" (Some (VStr (join sp ws))) 1 1 frac_zero float_zero).
 Proof. exact tempo_words_lemma. Qed.
 Print Assumptions to_v1_tempo_words.
+
+(* ------------------------------------------------------------------ histories of parses and in-place edits
+   (Model/C07_Hist.v): "the parsed fields are a function of the text and of the version only" *)
+
+(* whatever was parsed, edited in place, assigned or converted before: parsing the text of a line gives
+   parse_line of that text as a new line object, and nothing else changes *)
+Theorem hist_parse_function_of_text : forall tab ls h st w sch t,
+  pure_run tab ls [] h = Some st -> nth_error ls w = Some (sch, t) ->
+  pure_run tab ls [] (h ++ [HParse w])%list = option_map (fun vs => (st ++ [vs])%list) (parse_line tab sch t).
+Proof. exact hist_parse_function_of_text. Qed.
+Print Assumptions hist_parse_function_of_text.
+
+(* a line object parsed at any point of any history holds, after any later steps that do not edit IT (parses of the
+   same or of other texts, edits of other line objects -- also of objects parsed from the same text), what its text says *)
+Theorem hist_object_own_text : forall tab ls h1 h2 st st' w sch t vs,
+  pure_run tab ls [] h1 = Some st -> nth_error ls w = Some (sch, t) -> parse_line tab sch t = Some vs ->
+  names (List.length st) h2 = false ->
+  pure_run tab ls [] (h1 ++ HParse w :: h2)%list = Some st' ->
+  nth_error st' (List.length st) = Some vs.
+Proof. exact hist_object_own_text. Qed.
+Print Assumptions hist_object_own_text.
+
+(* an edit of line object i is seen through no other line object *)
+Theorem hist_edit_local : forall i f v st j, i <> j -> nth_error (upd_obj i f v st) j = nth_error st j.
+Proof. exact hist_edit_local. Qed.
+Print Assumptions hist_edit_local.
+
+(* refinement, all histories: an implementation with references (field values in heap cells, in-place edits write into
+   the cell, assignments make a new cell) whose decoders allocate a fresh cell for every field of every parse shows
+   exactly what the pure machine shows -- including failure *)
+Theorem hist_heap_refines_pure : forall tab ls h,
+  option_map observe (heap_run tab no_memo ls hinit h) = pure_run tab ls [] h.
+Proof. exact heap_refines_pure. Qed.
+Print Assumptions hist_heap_refines_pure.
+
+(* non-vacuity: two notes with the same attribute list, the list of the first is appended to in place *)
+Theorem hist_example :
+  pure_run [] ex_lines [] ex_hist =
+  Some [[VStr "n1"; VList ["v1"; "staff1"; "fermata"]]; [VStr "n2"; VList ["v1"; "staff1"]]; [VStr "n2"; VList ["v1"; "staff1"]]]
+  /\ option_map observe (heap_run [] no_memo ex_lines hinit ex_hist) = pure_run [] ex_lines [] ex_hist.
+Proof. exact hist_example. Qed.
+Print Assumptions hist_example.
+
+(* the statement is not vacuous: with the list decoder memoised on the field text (one shared cell per text) the edit
+   shows up in the EARLIER and in the LATER parse of the other note *)
+Theorem hist_memo_refuted :
+  option_map observe (heap_run [] memo_lists ex_lines hinit ex_hist) =
+  Some [[VStr "n1"; VList ["v1"; "staff1"; "fermata"]]; [VStr "n2"; VList ["v1"; "staff1"; "fermata"]]; [VStr "n2"; VList ["v1"; "staff1"; "fermata"]]]
+  /\ option_map observe (heap_run [] memo_lists ex_lines hinit ex_hist) <> pure_run [] ex_lines [] ex_hist.
+Proof. exact hist_memo_refuted. Qed.
+Print Assumptions hist_memo_refuted.
+
+(* ... and it needs the in-place edit: assigning a new list to the field is harmless even for the memoising parser *)
+Theorem hist_memo_needs_inplace :
+  option_map observe (heap_run [] memo_lists ex_lines hinit [HParse 0; HParse 1; HSet 0 1 (VList ["x"]); HParse 1]) =
+  pure_run [] ex_lines [] [HParse 0; HParse 1; HSet 0 1 (VList ["x"]); HParse 1].
+Proof. exact hist_memo_needs_inplace. Qed.
+Print Assumptions hist_memo_needs_inplace.
